@@ -1,0 +1,5 @@
+//go:build !verif
+
+package ocimem
+
+func verifYield(point string, b *Buffer) {}
